@@ -270,6 +270,56 @@ theorem C19_refused_keeps_value (d : Decl) (s : Agg) (h : Reachable d s) (op : O
     simp only [step] at h2 ⊢
     cases op <;> simp only at h2 ⊢ <;> first | rfl | (split <;> first | rfl | (rename_i hc; simp [hc] at h2))
 
+/-! ## the type check comes first -/
+
+/-- Statement order of the four mutators (regenerated from AggregationDataTypes.py): on every path
+`check_type(value, …)` runs before `value` is tested for membership or stored. -/
+theorem C19_type_check_precedes_membership_and_store :
+    arraySetChecksTypeFirst = true ∧ listSetChecksTypeFirst = true ∧ bagAddChecksTypeFirst = true ∧
+    setAddChecksTypeFirst = true := by decide
+
+/-- A wrong-typed value offered to any mutator (item assignment or `add`) of any aggregate in any reachable state is
+refused and leaves the value as it was — whatever the aggregate holds, in particular also when it holds a member that
+python considers equal to the offer (`INTEGER(1) == REAL(1.0) == True`). -/
+theorem C19_wrong_typed_offer_refused (d : Decl) (s : Agg) (h : Reachable d s) (op : Op) (x : Val)
+    (hop : (∃ i, op = .set i x) ∨ op = .add x) (hx : x.ty ≠ d.base) :
+    (s.step op).2.obs = .refused ∧ abs (s.step op).1 = abs s := by
+  have hspec : (step d (abs s) op).2 = .refused := by
+    generalize abs s = v
+    cases v with
+    | array a =>
+      simp only [step]
+      cases hh : d.hi with
+      | none => rfl
+      | some b =>
+        rcases hop with ⟨i, rfl⟩ | rfl
+        · have hn : ¬ arraySetAllowed d b a i x := fun hh' => hx hh'.2.2.1
+          simp [hn]
+        · rfl
+    | list l =>
+      rcases hop with ⟨i, rfl⟩ | rfl
+      · have hn : ¬ listSetAllowed d l i x := fun hh' => hx hh'.2.2.2.1
+        simp [step, hn]
+      · rfl
+    | bag b =>
+      rcases hop with ⟨i, rfl⟩ | rfl
+      · rfl
+      · have hn : ¬ bagAddAllowed d b x := fun hh' => hx hh'.1
+        simp [step, hn]
+    | set st =>
+      rcases hop with ⟨i, rfl⟩ | rfl
+      · rfl
+      · have hn : ¬ setAddAllowed d st x := fun hh' => hx hh'.1
+        simp [step, hn]
+  have hr : (s.step op).2.obs = .refused := (C19_refused_iff d s h op).mpr hspec
+  exact ⟨hr, C19_refused_keeps_value d s h op hr⟩
+
+/-- Before fixes/C19-6 a *full* SET took the membership shortcut before the type check: `SET [0:1] OF INTEGER` holding
+`INTEGER(1)` silently accepted `REAL(1.0)` (python-equal), which EXPRESS refuses. -/
+theorem C19_legacy_set_cross_type_witness :
+    (Legacy.setAddPy ⟨0, some 1, 0, [⟨0, 1⟩]⟩ 1 ⟨2, 1⟩).2 = .ok ∧
+    runDecl ⟨.set, 0, some 1, 0, false, false⟩ [.add ⟨0, 1⟩, .add ⟨2, 1⟩] = some [.ok, .refused] := by decide
+
 /-! ## element aggregates with their own bounds -/
 
 /-- Everything EXPRESS lets stand for a declared element type has that type's shape — the kind at every level and the
